@@ -5,6 +5,11 @@
 // goroutine of the call (caller loop, forkjoin workers, result senders, gated mock nodes) is durably blocked, i.e.
 // the component is quiescent.  No verdict depends on wall-clock time and nothing is awaited with a timeout: after
 // Wait() the call either has returned or it has not.
+//
+// A node can be "deaf": its requests ignore their context (a request blocked on a mutex, in a DNS lookup, in a client
+// that does not look at ctx) and return only when the schedule releases them (NodeDone) or at the end of the
+// schedule.  The bubble's virtual clock is moved by one second before every stimulus; every event carries the
+// virtual time, the Return carries the time at which the calling goroutine got its answer.
 package c19
 
 import (
@@ -54,12 +59,14 @@ func (clientTimeout) Temporary() bool { return true }
 var nodeRe = regexp.MustCompile(`vnode(\d+)`)
 
 // node is one gated beacon node: its API methods block until the driver releases them (then they answer with the
-// scripted outcome) or until their context is cancelled (then they answer like an aborted http request).
+// scripted outcome) or until their context is cancelled (then they answer like an aborted http request) -- unless
+// the node is deaf: then only the release counts.
 type node struct {
 	eth2wrap.Client // nil: the multi client is not expected to call anything else on a node
 
 	id      int
 	variant string
+	deaf    bool
 	release chan struct{}
 
 	mu        sync.Mutex
@@ -67,6 +74,7 @@ type node struct {
 	released  bool
 	sawCancel bool
 	addrCalls int
+	reqCtx    context.Context // context of the (latest) request
 }
 
 func (n *node) url(endpoint string) string {
@@ -146,6 +154,8 @@ func (n *node) scripted(method, endpoint string) error {
 		return apiErr(500, "internal server error")
 	case "plain":
 		return fmt.Errorf("vnode%d: unexpected response", n.id)
+	case "hang": // only reached at tear down (a deaf node that never answers)
+		return fmt.Errorf("vnode%d: released at tear down", n.id)
 	default:
 		panic("unknown outcome variant " + n.variant)
 	}
@@ -155,7 +165,13 @@ func (n *node) scripted(method, endpoint string) error {
 func (n *node) gate(ctx context.Context, method, endpoint string) error {
 	n.mu.Lock()
 	n.invoked++
+	n.reqCtx = ctx
 	n.mu.Unlock()
+
+	if n.deaf { // ignores ctx
+		<-n.release
+		return n.scripted(method, endpoint)
+	}
 
 	select {
 	case <-n.release:
@@ -270,10 +286,18 @@ func runOne(t *testing.T, tr *drv.Tracer, sid int, sched []drv.Step) {
 	if len(outs) != np+nb {
 		t.Fatalf("schedule %d: %d outcomes for %d nodes", sid, len(outs), np+nb)
 	}
+	deaf := make([]bool, np+nb)
+	if ds, ok := cfg["deaf"].([]any); ok {
+		for i := range deaf {
+			if i < len(ds) {
+				deaf[i], _ = ds[i].(bool)
+			}
+		}
+	}
 	nodes := make([]*node, np+nb+1) // 1-based
 	var prim, fall []eth2wrap.Client
 	for i := 1; i <= np+nb; i++ {
-		nodes[i] = &node{id: i, variant: drv.Str(outs[i-1]), release: make(chan struct{})}
+		nodes[i] = &node{id: i, variant: drv.Str(outs[i-1]), deaf: deaf[i-1], release: make(chan struct{})}
 		if i <= np {
 			prim = append(prim, nodes[i])
 		} else {
@@ -283,12 +307,16 @@ func runOne(t *testing.T, tr *drv.Tracer, sid int, sched []drv.Step) {
 	multi := eth2wrap.NewMultiForT(prim, fall)
 
 	const life = time.Hour
+	t0 := time.Now()
 	ctx, cancel := context.WithTimeout(context.Background(), life)
 	defer cancel()
 	deadline, _ := ctx.Deadline()
+	vnow := func() int { return int(time.Since(t0) / time.Second) }
+	tick := func() { time.Sleep(time.Second) } // virtual: nothing in the bubble is runnable while the driver sleeps
 
 	var (
 		ans       answer
+		retAt     int
 		retCh     = make(chan struct{})
 		called    bool
 		returned  bool
@@ -306,14 +334,17 @@ func runOne(t *testing.T, tr *drv.Tracer, sid int, sched []drv.Step) {
 
 		return res
 	}
+	// sawCancel: nodes whose request returned because its context was cancelled, and deaf nodes still blocked in a
+	// request whose context is cancelled by now.
 	sawCancel := func() []int {
 		res := []int{}
 		for i := 1; i <= np+nb; i++ {
-			nodes[i].mu.Lock()
-			if nodes[i].sawCancel {
+			n := nodes[i]
+			n.mu.Lock()
+			if n.sawCancel || (n.deaf && n.invoked > 0 && !n.released && n.reqCtx.Err() != nil) {
 				res = append(res, i)
 			}
-			nodes[i].mu.Unlock()
+			n.mu.Unlock()
 		}
 
 		return res
@@ -342,12 +373,12 @@ func runOne(t *testing.T, tr *drv.Tracer, sid int, sched []drv.Step) {
 				}
 				a.by = sel
 			}
-			tr.Emit(drv.Step{"ev": "Return", "kind": a.kind, "by": a.by})
+			tr.Emit(drv.Step{"ev": "Return", "kind": a.kind, "by": a.by, "t": retAt})
 		default:
 		}
 	}
 
-	tr.Emit(drv.Step{"ev": "Reset", "sid": sid, "P": np, "B": nb, "style": style, "out": outs})
+	tr.Emit(drv.Step{"ev": "Reset", "sid": sid, "P": np, "B": nb, "style": style, "out": outs, "deaf": deaf, "t": 0})
 	for _, st := range sched[1:] {
 		switch drv.Str(st["ev"]) {
 		case "Call":
@@ -355,12 +386,14 @@ func runOne(t *testing.T, tr *drv.Tracer, sid int, sched []drv.Step) {
 				continue
 			}
 			called = true
+			tick()
 			go func() {
 				defer close(retCh)
 				ans = doCall(ctx, multi, style)
+				retAt = vnow()
 			}()
 			synctest.Wait()
-			tr.Emit(drv.Step{"ev": "Call", "started": started()})
+			tr.Emit(drv.Step{"ev": "Call", "started": started(), "t": vnow()})
 			observe()
 		case "NodeDone":
 			i := drv.Num(st["i"])
@@ -377,15 +410,17 @@ func runOne(t *testing.T, tr *drv.Tracer, sid int, sched []drv.Step) {
 			if !can {
 				continue // nothing to release: the node was not consulted (or has answered already)
 			}
+			tick()
 			close(n.release)
 			synctest.Wait()
-			tr.Emit(drv.Step{"ev": "NodeDone", "i": i, "started": started()})
+			tr.Emit(drv.Step{"ev": "NodeDone", "i": i, "started": started(), "t": vnow()})
 			observe()
 		case "CancelCaller":
 			if cancelled || returned {
 				continue
 			}
 			cancelled = true
+			tick()
 			how := drv.Str(st["how"])
 			if how == "deadline" {
 				time.Sleep(time.Until(deadline))
@@ -394,14 +429,16 @@ func runOne(t *testing.T, tr *drv.Tracer, sid int, sched []drv.Step) {
 				cancel()
 			}
 			synctest.Wait()
-			tr.Emit(drv.Step{"ev": "CancelCaller", "how": how})
+			tr.Emit(drv.Step{"ev": "CancelCaller", "how": how, "t": vnow()})
 			observe()
 		default:
 			t.Fatalf("unknown step %v", st)
 		}
 	}
+	tick()
 	synctest.Wait()
-	tr.Emit(drv.Step{"ev": "End", "started": started(), "cancelled": sawCancel()})
+	observe() // a call that returned by itself after the last stimulus (a timer): its Return carries a later time
+	tr.Emit(drv.Step{"ev": "End", "started": started(), "cancelled": sawCancel(), "t": vnow()})
 
 	// tear down: give up the call, unblock whatever is still gated
 	cancel()
